@@ -132,10 +132,14 @@ pub fn eval_log(case: &LogCase, stats: &mut Stats) -> Outcome {
 pub struct DumpCase {
     pub initial: usize,
     pub maxes: Vec<usize>,
+    /// before this call a dangling symbolic link appears in the folder (the dumps share the log folder; a link to a
+    /// rolled-away log makes listing the folder fail): from then on only the bound is asserted
+    #[serde(default)]
+    pub dangling_from: Option<usize>,
 }
 
 pub fn dump_strategy() -> impl Strategy<Value = DumpCase> {
-    (0usize..10, prop::collection::vec(1usize..7, 1..10)).prop_map(|(initial, maxes)| DumpCase { initial, maxes })
+    (0usize..10, prop::collection::vec(1usize..7, 1..10), prop::option::weighted(0.2, 0usize..6)).prop_map(|(initial, maxes, dangling_from)| DumpCase { initial, maxes, dangling_from })
 }
 
 pub fn eval_dump(case: &DumpCase, stats: &mut Stats) -> Outcome {
@@ -152,9 +156,22 @@ pub fn eval_dump(case: &DumpCase, stats: &mut Stats) -> Outcome {
     let mut reached = false;
     let mut nontrivial = false;
     for (i, max) in case.maxes.iter().enumerate() {
+        if case.dangling_from == Some(i) {
+            let _ = std::os::unix::fs::symlink(dir.join("ProxyAgent.log.rolled-away"), dir.join("ProxyAgent.log.latest"));
+            stats.class("dumps:dangling-link-in-the-folder");
+        }
         let before: Vec<String> = files_in(&dir).into_iter().map(|(n, _)| n).filter(|n| n.starts_with("AuthorizationRules_")).collect();
         rules.write_all(&dir, *max);
         let after: Vec<String> = files_in(&dir).into_iter().map(|(n, _)| n).filter(|n| n.starts_with("AuthorizationRules_") && n.ends_with(".json")).collect();
+        if case.dangling_from.map(|k| i >= k).unwrap_or(false) {
+            // listing may fail now: whether a dump is written is not asserted, the bound is
+            if after.len() > (*max).max(before.len()) {
+                return Outcome::fail("dumps:more-dumps-than-configured", format!("op {} (a dangling link is in the folder): {} dumps before, {} after, max {}", i, before.len(), after.len(), max));
+            }
+            order = after.clone();
+            nontrivial = true;
+            continue;
+        }
         let new: Vec<String> = after.iter().filter(|n| !before.contains(n)).cloned().collect();
         if new.len() != 1 {
             return Outcome::fail("dumps:write-did-not-add-exactly-one-dump", format!("op {} (max {}): before {:?} after {:?}", i, max, before, after));
@@ -383,4 +400,4 @@ pub fn eval_stop(case: &StopCase, stats: &mut Stats) -> Outcome {
     Outcome::Pass
 }
 
-pub const RULE: &str = "three engines on instance APIs. rolling log: RollingLogger::create_new(dir, name, size limit 64..4096, count 1..6) on a directory left by an earlier run with the same settings (0..count files, possibly at the bound, current file possibly over the limit); ops Write(n), WriteMany([n..]), Restart (new instance on the same directory), 1-59 ops; after EVERY op: files of the log <= count and every file <= limit + largest single write so far. rule dumps: AuthorizationRulesForLogging::write_all(dir, max 1..6) on directories holding 0..9 earlier dumps, 1-9 calls with varying max; after every call: exactly one new dump, dumps <= max, survivors are the newest in creation order. event files: event_logger::start(dir, 1 ms, cap 1..5) over a directory pre-populated with 0..8 files; ops Burst(n events), Consume(k oldest files, as the reader does), Wait(6 flush intervals); after every wait: file count <= max(cap, initial) and a flush that found the directory at the cap created no file. the final flush: each history in a child process (stop() closes a process-wide queue): pre-populated directory, bursts with or without waiting, then 0-7 events queued and stop() at once; after the logger task has ended: file count <= max(cap, initial). non-trivial: history that reaches the bound and continues, or starts at/over it, or stops at the cap with events queued; distinct by hash of the history.";
+pub const RULE: &str = "three engines on instance APIs. rolling log: RollingLogger::create_new(dir, name, size limit 64..4096, count 1..6) on a directory left by an earlier run with the same settings (0..count files, possibly at the bound, current file possibly over the limit); ops Write(n), WriteMany([n..]), Restart (new instance on the same directory), 1-59 ops; after EVERY op: files of the log <= count and every file <= limit + largest single write so far. rule dumps: AuthorizationRulesForLogging::write_all(dir, max 1..6) on directories holding 0..9 earlier dumps, 1-9 calls with varying max; after every call: exactly one new dump, dumps <= max, survivors are the newest in creation order; in 20% of the histories a dangling symbolic link appears in the folder at some call (listing the folder may then fail): from then on only 'the number of dumps does not grow beyond max(max, what was there)' is asserted. event files: event_logger::start(dir, 1 ms, cap 1..5) over a directory pre-populated with 0..8 files; ops Burst(n events), Consume(k oldest files, as the reader does), Wait(6 flush intervals); after every wait: file count <= max(cap, initial) and a flush that found the directory at the cap created no file. the final flush: each history in a child process (stop() closes a process-wide queue): pre-populated directory, bursts with or without waiting, then 0-7 events queued and stop() at once; after the logger task has ended: file count <= max(cap, initial). non-trivial: history that reaches the bound and continues, or starts at/over it, or stops at the cap with events queued; distinct by hash of the history.";
